@@ -677,7 +677,7 @@ class FieldsJson(FieldValueBase):
     def _parse(cls, parsable):
         try:
             raw_values = json.loads(parsable.decode('ascii'), object_pairs_hook=collections.OrderedDict)
-        except ValueError as e:  # json.decoder.JSONDecodeError is derived from ValueError
+        except (ValueError, RecursionError) as e:  # json.decoder.JSONDecodeError is derived from ValueError
             six.raise_from(InvalidValue(six.ensure_text(parsable, 'ascii', 'replace'), cls, 'value'), e)
 
         attr_fields_dict = attr.fields_dict(cls)
